@@ -181,43 +181,23 @@ def get_unstable(regions, index):
 
         node = search([contig[n], start[n], end[n]], node_list)
         if len(node) > 1:
-            logger.info("INFO: Region %s spans multiple nodes.\nThe nodes are:" % (node[n]))
-            for n in node:
-                logger.info("INFO: %s\t%s\t%d\t%d" % (n[0], n[1], n[2], n[3]))
+            logger.info("INFO: Region %s spans multiple nodes.\nThe nodes are:" % (regions[n]))
+            for nd in node:
+                logger.info("INFO: %s\t%s\t%d\t%d" % (nd[0], nd[1], nd[2], nd[3]))
 
-        result.append(node[0][0])
+        result.extend([nd[0] for nd in node])
 
     return result
 
 
 def search(node, node_list):
-    """Find the unstable node id from the region"""
+    """Find the unstable node ids from the region"""
 
-    s = 0
-    pos = 0
-    e = len(node_list) - 1
     q_s = int(node[1])
     q_e = int(node[2])
-    while s != e:
-        m = int((s + e) / 2)
-        if (q_s >= node_list[m][2]) and (q_s < node_list[m][3]):
-            pos = m
-            break
-        elif q_s >= node_list[m][3]:
-            s = m + 1
-        else:
-            e = m - 1
-        pos = s
-    # if there is only one node for the entire contig (case for non-reference nodes)
-    # then the above loop is not executed and we extract the only node with pos=0
-    result = [node_list[pos]]
-    while True:
-        if q_e < node_list[pos][3]:
-            break
-        pos += 1
-        result.append(node_list[pos])
-
-    return result
+    # node_list only holds the nodes that have alignments, so it can have gaps and the region
+    # may lie before, between or after them: keep every node whose interval intersects the region
+    return [nd for nd in node_list if nd[2] <= q_e and q_s < nd[3]]
 
 
 # fmt: off
